@@ -17,11 +17,18 @@
    every ignore_default_attributes flag, every parser configuration whose class factory has a
    default for every field, every converter satisfying the round-trip law on the values of `o`,
    and EVERY event stream that reads as the document (any attribute order, any prefix maps,
-   indentation white space): theorem C01_roundtrip_S4.  Inside S4 one combination is left to the
+   indentation white space): theorem C01_roundtrip_S4.  It includes QName-typed element values
+   (scalar or list): the writer renders them with a prefix of its choice and `reads` resolves the
+   character data through the prefix map of the element's own start event (`resolve_qname`, the
+   XML Schema rule), the converter law asks the QName converter to agree with that rule.  The
+   forms of the theorem that go through the canonical stream `pump` or through C03's writers down
+   to the printed document are stated for instances without QName values (`noq o`): under a user
+   prefix map that binds the default namespace a QName without namespace is written bare and read
+   back inside that namespace (C01_qname_default_ns_refuted, finding C01-F3).  Inside S4 one combination is left to the
    correspondence: a wrapped list inside the span of a sequence group (guard clause seq_member,
    a modelling rule: it reads back on the real code).  The rest of the quantifier (nillable,
-   wildcards, compound fields, xsi:type, unions, QName values) is covered by the correspondence
-   and the oracle of harness/c01.py only. *)
+   wildcards, compound fields, xsi:type, unions, QName values of attributes / Text / token lists)
+   is covered by the correspondence and the oracle of harness/c01.py only. *)
 From Coq Require Import NArith ZArith List Bool.
 From XV Require Import Base.Str Base.Eqb Base.PyInt Spec.XmlNs Model.Bind Model.WriterBridge Spec.Fits Model.RoundtripCorr
   Proofs.RoundtripParse Proofs.RoundtripMain Proofs.RoundtripWitness Proofs.RoundtripExamples
@@ -56,6 +63,7 @@ Print Assumptions C01_roundtrip_S4.
 Theorem C01_roundtrip_pump_S4 : forall cfg c u ok ign n cls o,
   conv_roundtrips c u ok -> nodefault_free cfg = true ->
   wf_model u cls = true -> fits c u ok py_isspace n cls o = true ->
+  noq o = true ->                           (* `pump` binds no prefixes: no QName values *)
   exists evs,
     EventGen.generate ign c u o = EventGen.Ok evs
     /\ Parser.parse cfg c u (Some cls) (pump (itree_of_events (map (of_wevent c) evs))) = Parser.Ok o [].
@@ -70,7 +78,7 @@ Print Assumptions C01_roundtrip_pump_S4.
    Every document tree that says the expected tree, also after indentation, is parsed back: *)
 Theorem C01_document_parses_S4 : forall cfg c u ok ign n cls o t' m k,
   conv_roundtrips c u ok -> nodefault_free cfg = true ->
-  wf_model u cls = true -> fits c u ok py_isspace n cls o = true ->
+  wf_model u cls = true -> fits c u ok py_isspace n cls o = true -> noq o = true ->
   wf_doc t' = true -> doc_says (eobj c u ign n None o) (strip_indent t') = true ->
   Parser.parse_n k cfg c u (Some cls) (pump_doc m t' None) = Parser.Ok o [].
 Proof. intros. eapply document_parses; try eassumption. reflexivity. Qed.
@@ -83,7 +91,7 @@ Print Assumptions C01_document_parses_S4.
    the statement quantifies over) *)
 Theorem C01_roundtrip_native_S4 : forall cfg c u ok ign n cls o wcfg user,
   conv_roundtrips c u ok -> nodefault_free cfg = true ->
-  wf_model u cls = true -> fits c u ok py_isspace n cls o = true ->
+  wf_model u cls = true -> fits c u ok py_isspace n cls o = true -> noq o = true ->
   cfg_schema_location wcfg = None -> cfg_no_ns_schema_location wcfg = None ->
   exists evs,
     EventGen.generate ign c u o = EventGen.Ok evs
@@ -99,7 +107,7 @@ Print Assumptions C01_roundtrip_native_S4.
 (* LxmlEventWriter: the same for the tree the lxml sink builds *)
 Theorem C01_roundtrip_lxml_S4 : forall cfg c u ok ign n cls o wcfg user,
   conv_roundtrips c u ok -> nodefault_free cfg = true ->
-  wf_model u cls = true -> fits c u ok py_isspace n cls o = true ->
+  wf_model u cls = true -> fits c u ok py_isspace n cls o = true -> noq o = true ->
   cfg_schema_location wcfg = None -> cfg_no_ns_schema_location wcfg = None ->
   exists evs,
     EventGen.generate ign c u o = EventGen.Ok evs
@@ -173,3 +181,33 @@ Theorem C01_sequence_tokens_refuted :
   /\ ParserCorr.outcome_eqb composition_seqtok (Parser.parse cfg_strict conv_c05 u_seqtok (Some root_seqtok) pevs_seqtok) = true.
 Proof. exact sequence_tokens_refuted. Qed.
 Print Assumptions C01_sequence_tokens_refuted.
+
+(* ---- QName values ---------------------------------------------------------------------------- *)
+(* metadata and instance with QName element values (with and without namespace, a list) exported from
+   the real code are inside the guards (conv_c05 resolves QNames by the XML Schema rule), and the
+   events the real LxmlEventHandler delivered for the indented output of the real LxmlEventWriter
+   read as the expected tree - every QName through the prefix map of its own start event - and
+   are parsed back *)
+Example C01_guards_qname_inhabited :
+  wf_model u_qn root_qn = true
+  /\ fits conv_c05 u_qn ok_c05 py_isspace 1 root_qn o_qn = true
+  /\ noq o_qn = false.
+Proof. exact guards_qn. Qed.
+
+Example C01_real_events_qname :
+  (match expected_qn with Some e => reads_b e pevs_qn | None => false end) = true
+  /\ Parser.parse cfg_strict conv_c05 u_qn (Some root_qn) pevs_qn = Parser.Ok o_qn [].
+Proof. exact real_events_qn. Qed.
+
+(* the hypothesis `noq o` of the pump / document forms (known finding C01-F3): the same instance
+   written by XmlEventWriter with the user prefix map {None: urn:a}: QName('local') is written bare under
+   xmlns="urn:a"; metadata and instance are inside the guards of C01_roundtrip_S4, but the events
+   the real handler delivered do not read as the expected tree and are parsed to another instance *)
+Theorem C01_qname_default_ns_refuted :
+  wf_model u_qn root_qn = true
+  /\ fits conv_c05 u_qn ok_c05 py_isspace 1 root_qn o_qn = true
+  /\ (match expected_qn with Some e => reads_b e pevs_qn_default | None => true end) = false
+  /\ ParserCorr.outcome_eqb (Parser.parse cfg_strict conv_c05 u_qn (Some root_qn) pevs_qn_default) (Parser.Ok o_qn []) = false
+  /\ has_local_qname o_qn = true.
+Proof. exact qname_default_ns_refuted. Qed.
+Print Assumptions C01_qname_default_ns_refuted.
